@@ -459,7 +459,7 @@ func init() {
 				{Backing: "store", MinMergePct: 100, Concern: 1, CachePersisted: true},
 			},
 			Steps: []string{"M", "Pb", "Pe", "S+", "CS+", "I+", "IX", "SS+", "H-", "CC", "CS", "R"}, Devs: []string{"m1", "p1"},
-			Roots: [][]string{{"B0", "M", "Pb", "Pe", "B2", "M", "Pb", "Pe", "B0"}, {"B3", "M", "Pb", "Pe", "R"}},
+			Roots: [][]string{{"B0", "M", "Pb", "Pe", "B3", "M", "Pb", "Pe", "B0"}, {"B3", "M", "Pb", "Pe", "R"}},
 			MaxB:  3, MaxD: 8, MaxK: 1, MaxH: 2, MaxR: 1, Deadline: tierDeadline(tier),
 			Note: "oracle: every open snapshot / child snapshot / iterator is re-read after every later step and must show what it showed when taken"}
 		if tier == "thorough" {
